@@ -193,6 +193,37 @@ def worker(job):
                     if (im.k, im.parity) != t or im.D != D or tuple(im.is_torus) != tuple(flags) or not same_elems(im.data, b):
                         problems.append(("identity", "to_images: image of type %s is (k=%r,parity=%r,D=%r,is_torus=%r) or has the wrong pixels" % (tname(t), im.k, im.parity, im.D, im.is_torus), site_of(im.data)))
                         break
+    elif pair == "from_images":
+        # from_images(images, n_lead_axes, axis): every image gets n_lead_axes leading singleton axes and images of
+        # one type are concatenated along `axis`; to_images must give the images back (grouped by type)
+        geomI = geom.GeometricImage
+        n_lead, axis = extra["n_lead"], extra["axis"]
+        imgs, per_type = [], {}
+        cnt = 0
+        for rep in range(2):
+            for t in order:
+                if D == 1 and t[0] > 0:
+                    continue
+                cnt += 1
+                data = A.leaf("i%d" % cnt, tuple(sp) + (D,) * t[0])
+                imgs.append(geomI(data, t[1], D, flags))
+                per_type.setdefault(t, []).append(data)
+        if not imgs:
+            return dict(cfg=cfg, problems=[], skip=True)
+        r = attempt(lambda: MI.from_images(imgs, n_lead, axis))
+        if isinstance(r, Rejected):
+            problems.append(("rejected", "from_images(n_lead_axes=%d, axis=%d) rejected: %s" % (n_lead, axis, r.exc), None))
+        else:
+            for t, ds in per_type.items():
+                exp = A.concatenate([A.reshape(d, (1,) * n_lead + d.shape) for d in ds], axis)
+                if t not in r or r[t].shape != exp.shape or not same_elems(r[t], exp):
+                    problems.append(("identity", "from_images(n_lead_axes=%d, axis=%d): block %s is not the images stacked on axis %d behind %d leading axes (shape %r, expected %r)" % (n_lead, axis, tname(t), axis, n_lead, r[t].shape if t in r else None, exp.shape), site_of(r[t]) if t in r else None))
+                    break
+            if not problems:
+                back = attempt(lambda: r.to_images())
+                want = [d for t in per_type for d in per_type[t]]
+                if isinstance(back, Rejected) or len(back) != len(want) or any(not same_elems(b.data, w) for b, w in zip(back, want)):
+                    problems.append(("identity", "to_images(from_images(images, %d, %d)) does not give the images back" % (n_lead, axis), None))
     elif pair == "copy":
         m = build()
         r = attempt(lambda: m.copy())
@@ -429,6 +460,9 @@ def run(ctx):
                     continue
                 for pair in ("vector", "scalar", "images", "copy", "pytree"):
                     jobs.append((ctx.repo, pair, D, s, nl, {}))
+                if nl >= 1:
+                    for axis in range(nl):
+                        jobs.append((ctx.repo, "from_images", D, s, nl, dict(n_lead=nl, axis=axis)))
                 for axis in range(nl):
                     for size in (2, 3) if ctx.thorough() else (2,):
                         jobs.append((ctx.repo, "expand", D, s, nl, dict(axis=axis, size=size)))
@@ -457,7 +491,7 @@ def run(ctx):
         ev.obligation("roundtrip", not r["problems"], (cfg["pair"], cfg["D"], str(cfg["order"]), cfg["leading_axes"], str(cfg["extra"])) if nontriv else None, sample=cfg if ev.obligations % 61 == 0 else None)
         for kind, what, site in r["problems"]:
             by.setdefault((cfg["pair"], kind), []).append((what, site, cfg))
-    CONSTRUCT = {"vector": "MultiImage.from_vector", "scalar": "MultiImage.from_scalar_multi_image", "concat": "MultiImage.concat_inverse", "expand": "MultiImage.expand", "merge": "MultiImage.merge_axes", "pmap": "MultiImage.reshape_pmap", "images": "MultiImage.to_images", "copy": "MultiImage.copy", "pytree": "MultiImage.tree_flatten", "chain": "MultiImage.from_scalar_multi_image"}
+    CONSTRUCT = {"from_images": "MultiImage.from_images", "vector": "MultiImage.from_vector", "scalar": "MultiImage.from_scalar_multi_image", "concat": "MultiImage.concat_inverse", "expand": "MultiImage.expand", "merge": "MultiImage.merge_axes", "pmap": "MultiImage.reshape_pmap", "images": "MultiImage.to_images", "copy": "MultiImage.copy", "pytree": "MultiImage.tree_flatten", "chain": "MultiImage.from_scalar_multi_image"}
     for (pair, kind), items in sorted(by.items()):
         what, site, cfg = items[0]
         q = CONSTRUCT[pair]
